@@ -39,6 +39,7 @@ func kvMiddleware[V any](
 		return zeroV, err
 	}
 
+	verifPoint("kv.found", n)
 	if succ.ID() != n.ID() {
 		// remote KV
 		return handler(ctx, succ, targetRemote, id)
